@@ -571,6 +571,7 @@ def run_check(driver: Driver, argv=None):
     _runlock = open(BUILD / f".{pid}{ALT_TAG}.run.lock", "w")   # runs of one property on one tree share build/<pid>
     fcntl.flock(_runlock, fcntl.LOCK_EX)
     t0 = time.time()
+    _arm_watchdog(pid, args.tier)
     import agilerl  # the implementation under test must be the tree the check was pointed at
     assert Path(agilerl.__file__).resolve().is_relative_to(REPO), (agilerl.__file__, REPO)
     rng = random.Random(f"{pid}-{args.seed}")
@@ -776,6 +777,37 @@ def run_check(driver: Driver, argv=None):
           f"cases={len(observations)} nontrivial={len(nontriv_keys)} K-compared={len(terms)} K-disagree={len(k_fail)} "
           f"violations={n_viol} known={len(known_hits)} wall={ev['wall_s']}s")
     return 1 if n_viol else 0
+
+
+def _arm_watchdog(pid, tier):
+    """A check must never hang: if the whole run exceeds its wall-clock budget (an implementation call that blocks
+    in a way the driver's own guards did not catch), report that as a violation and leave, killing our children."""
+    import signal
+    import threading
+    limit = float(os.environ.get("VERIF_MAX_WALL", "2400" if tier == "quick" else "10800"))
+
+    def fire():
+        v = Violation("hang", "check-exceeded-wall-clock",
+                      f"the {tier} run of {pid} did not finish within {limit:.0f} s: some call into the implementation "
+                      "(or the model evaluation) blocked; the property is not shown to hold on this tree", None, None,
+                      found_input=False)
+        p = write_replay(pid, v)
+        sys.stdout.write(f"VIOLATION property={pid} replay={p} no-failing-input-found\n")
+        sys.stdout.flush()
+        try:
+            import psutil  # kill workers the driver may have left behind
+            for c in psutil.Process().children(recursive=True):
+                c.kill()
+        except Exception:
+            try:
+                os.killpg(os.getpgid(0), signal.SIGTERM) if os.getpgid(0) == os.getpid() else None
+            except Exception:
+                pass
+        os._exit(1)
+
+    t = threading.Timer(limit, fire)
+    t.daemon = True
+    t.start()
 
 
 def driver_neighbours(driver, case, rng):
